@@ -131,5 +131,12 @@ claim("C16", "model_checking",
       "conditions of converged solves (planar symmetry for non-ideal EOS, all symmetries for the ideal gas); spec/TraceEos.tla checks each term vector (2e-5) and D > 0.",
       MEAS, TECH, "DESIGN.md 9 C16")
 
+claim("C14", "model_checking",
+      "Heat campaign (Rod1D BC1-BC4 homogeneous and non-homogeneous, two Robin coefficient sets, the three planar sandwiches, Hutchens 1 and 2, Rectangle; diffusivities, lengths, "
+      "end temperatures, boundary values enumerated by TLC; times in units of L^2/kappa): per configuration the term vectors of the declared diffusion equation (4th-order differences), "
+      "of each declared boundary operator alpha T + beta dT/dn - gamma (one-sided differences), the t -> 0+ limit against the declared initial profile, the t -> infinity limit against the "
+      "steady solution of the boundary operators, and regularity at r = 0; names fixed by Catalogue.FieldLaws, tolerance of the series class. The cylindrical sandwich (8 s per call) is not scanned.",
+      MEAS, TECH, "DESIGN.md 9 C14")
+
 for p in [ "C07", "C08", "C09", "C10", "C11", "C12", "C13", "C14", "C15", "C16", "C18", "C19", "C20"]:
     pending(p, "check under construction in this round (design in DESIGN.md section 9); not claimed until it runs soundly on the unchanged tree")
